@@ -260,4 +260,67 @@ def diagOf (ds : List Node) : Diag :=
   if ds.all (· == none) then .undefined
   else if ds.contains none then .possibly else .ok
 
+/-! ## Scope kinds
+
+How the name is bound in the analysed function. The flow-sensitive bookkeeping of `FunctionScope.set`
+(stacked_scopes.py:1116-1123: `definition_node_to_value`, `name_to_current_definition_nodes`,
+`name_to_all_definition_nodes`) runs for every kind of name — `Generated/ScopeSet.lean` is regenerated from the live
+source and `scope_set_bookkeeping_registered` (Props/C09.lean) checks it. What differs:
+
+* a **parameter** is set once when the scope is created (`_visit_function_body` :2305), exactly like an assignment in
+  front of the body;
+* a name declared **`global` / `nonlocal`** is backed by a `ReferencingValue` (`visit_Global` :2569, `visit_Nonlocal`
+  :2583 → `FunctionScope.set` :1105-1107). Every assignment is *additionally* forwarded to the owning scope
+  (`ref_var.scope.set`, :1110): the module `Scope` unites all values it is ever given (`Scope.set` :759), the enclosing
+  `FunctionScope` records the node in its `name_to_all_definition_nodes`. Uses are resolved from the same
+  `usage_to_definition_nodes`, but `_UNINITIALIZED` — and a use whose key is missing (`get_local` falls back to
+  `referencing_value_vars`) — stands for "whatever the owning scope holds" (`_get_value_from_nodes` :1329-1338
+  `should_use_unconstrained` → `_resolve_value(_empty_constrained)` → `parent_scope.get(varname, None, …)`;
+  `resolve_reference` :838): the binding made outside the function plus every value ever assigned to the name in
+  the function, dead code included. Such a name is never reported as undefined. -/
+inductive ScopeKind where
+  /-- ordinary local variable, unbound on entry -/
+  | loc
+  /-- parameter `x: Literal[d0] = d0` -/
+  | param (d0 : Nat)
+  /-- `global x`, the module binds `x = d0` -/
+  | glob (d0 : Nat)
+  /-- `nonlocal x` in a nested function, the enclosing function binds `x = d0` before the `def` -/
+  | nonloc (d0 : Nat)
+deriving Repr, DecidableEq
+
+mutual
+/-- the literals of all assignments to `x`, in program order (every statement is visited in the collecting phase) -/
+def Stmt.defsOf (x : Nat) : Stmt → List Nat
+  | .assign v d => if v = x then [d] else []
+  | .ite t e => t.defsOf x ++ e.defsOf x
+  | .loop _ _ b e => b.defsOf x ++ e.defsOf x
+  | .try_ b hs e _ f => b.defsOf x ++ hs.defsOf x ++ e.defsOf x ++ f.defsOf x
+  | .with_ _ b => b.defsOf x
+  | _ => []
+def Block.defsOf (x : Nat) : Block → List Nat
+  | .nil => []
+  | .cons s b => s.defsOf x ++ b.defsOf x
+def Handlers.defsOf (x : Nat) : Handlers → List Nat
+  | .nil => []
+  | .cons h hs => h.defsOf x ++ hs.defsOf x
+end
+
+/-- what the owning scope of a `global` / `nonlocal` name holds when the function is checked -/
+def ownerHolds (d0 : Nat) (p : Block) (x : Nat) : List Node := (d0 :: p.defsOf x).map some
+
+/-- `_UNINITIALIZED` of a ReferencingValue-backed name is resolved through the owning scope -/
+def expandRef (d0 : Nat) (p : Block) (x : Nat) (ds : List Node) : List Node :=
+  ds.flatMap fun n => match n with
+    | none => ownerHolds d0 p x
+    | some d => [some d]
+
+/-- what is reported at use `u` of `x` when `x` is bound the way `k` says -/
+def reportedK (k : ScopeKind) (p : Block) (x u : Nat) : List Node :=
+  match k with
+  | .loc => reported p x u
+  | .param d0 => reported (.cons (.assign x d0) p) x u
+  | .glob d0 => expandRef d0 p x (reported p x u)
+  | .nonloc d0 => expandRef d0 p x (reported p x u)
+
 end Pya.C09
